@@ -214,14 +214,30 @@ def rule_Q2(ctx):
     # file adapter and top level
     fp = ctx.fn(CS, "CueSheetFileAdapter.parse", "Q2")
     okf, detf = False, "no returning path found"
+    track_list_names = set()
     n_ret = 0
     for p in run_paths(ctx, fp, rule="Q2", limit=4000):
         if p.end != "return":
             continue
         n_ret += 1
-        keys = [evaluator(ctx, fp, e).ev(c).key() for c, e, st in calls_on(p, name="CueSheetFile")]
+        cfs = [(c, e) for c, e, st in calls_on(p, name="CueSheetFile")]
+        keys = [evaluator(ctx, fp, e).ev(c).key() for c, e in cfs]
         import re as _re
-        good = [k for k in keys if _re.fullmatch(r"CueSheetFile\(sub\(\((?:ite\(.+,)?_FILE_LINE_REGEX\.match\(.+\)(?:,None\))?\)\.groups\(\),0\)\)", k)]
+        from .util import call_parts as _cpq
+        good = []
+        for (c_, e_), k in zip(cfs, keys):
+            fn_, pos_, kw_ = _cpq(k)
+            name_arg = pos_[0] if pos_ else kw_.get("bin_file_name")
+            if name_arg is not None and _re.fullmatch(r"sub\(\((?:ite\(.+,)?_FILE_LINE_REGEX\.match\(.+\)(?:,None\))?\)\.groups\(\),0\)", name_arg) and len(pos_) <= 2 \
+                    and set(kw_) <= {"bin_file_name", "tracks"}:
+                good.append(k)
+                # a track list handed to the constructor must be the local list the loop fills
+                targ = c_.args[1] if len(c_.args) > 1 else next((k_.value for k_ in c_.keywords if k_.arg == "tracks"), None)
+                if targ is not None:
+                    if isinstance(targ, ast.Name):
+                        track_list_names.add(targ.id)
+                    else:
+                        good.pop()
         if len(keys) != 1 or not good:
             okf, detf = False, f"file object built as {keys}"
             break
@@ -244,7 +260,8 @@ def rule_Q2(ctx):
             tk = evaluator(ctx, fp, parses[0][1]).ev(parses[0][0]).key()
             for c, e in apps:
                 ev_ = evaluator(ctx, fp, e)
-                if not ev_.ev(c.func.value).key().endswith(".tracks") or ev_.ev(c.args[0]).key() != f"sub({tk},0)":
+                recv_ok = ev_.ev(c.func.value).key().endswith(".tracks") or (isinstance(c.func.value, ast.Name) and c.func.value.id in track_list_names)
+                if not recv_ok or ev_.ev(c.args[0]).key() != f"sub({tk},0)":
                     okf, detf = False, f"`{norm(c)}` does not append the parsed track to the file's track list"
         okf = okf and n_tr >= 1
         # the list of tracks ends only when no non-empty line is left: the test that leaves the loop looks at the text
